@@ -23,6 +23,47 @@ pub enum Ty {
     NestedEmpty,
     /// zero-sized elements whose `Hash` feeds nothing
     Unit,
+    /// one-byte element types for which comparing / hashing the bytes is *not* comparing / hashing the elements:
+    /// signed bytes (order), `bool` (its slice hash is one `write_u8` per element), and a byte with a case-insensitive
+    /// `PartialEq` / `Ord` / `Hash` of its own
+    I8,
+    Bool,
+    Ci,
+}
+
+/// an ASCII byte compared, ordered and hashed without regard to case
+#[derive(Clone, Copy)]
+pub struct Ci(pub u8);
+impl Ci {
+    fn key(&self) -> u8 {
+        self.0.to_ascii_lowercase()
+    }
+}
+impl PartialEq for Ci {
+    fn eq(&self, o: &Ci) -> bool {
+        self.key() == o.key()
+    }
+}
+impl Eq for Ci {}
+impl PartialOrd for Ci {
+    fn partial_cmp(&self, o: &Ci) -> Option<std::cmp::Ordering> {
+        Some(self.cmp(o))
+    }
+}
+impl Ord for Ci {
+    fn cmp(&self, o: &Ci) -> std::cmp::Ordering {
+        self.key().cmp(&o.key())
+    }
+}
+impl Hash for Ci {
+    fn hash<H: Hasher>(&self, h: &mut H) {
+        h.write_u8(self.key())
+    }
+}
+impl Debug for Ci {
+    fn fmt(&self, f: &mut std::fmt::Formatter<'_>) -> std::fmt::Result {
+        Debug::fmt(&(self.0 as char), f)
+    }
 }
 
 /// elements are given as small integers and mapped into the element type (F64: 0 NaN, 1 -0.0, 2 0.0, 3 1.0, 4 inf, else value)
@@ -274,6 +315,22 @@ fn exec_n<N: ArrayLength>(case: &Case) -> Result<(), String> {
             let b: Vec<()> = case.b.iter().map(|_| ()).collect();
             total::<(), N>(&a, &b)
         }
+        Ty::I8 => {
+            let a: Vec<i8> = case.a.iter().map(|v| *v as u8 as i8).collect();
+            let b: Vec<i8> = case.b.iter().map(|v| *v as u8 as i8).collect();
+            total::<i8, N>(&a, &b)
+        }
+        Ty::Bool => {
+            let a: Vec<bool> = case.a.iter().map(|v| v & 1 == 1).collect();
+            let b: Vec<bool> = case.b.iter().map(|v| v & 1 == 1).collect();
+            total::<bool, N>(&a, &b)
+        }
+        Ty::Ci => {
+            let mk = |v: &i32| Ci(b"aAbBzZ!~"[(*v as usize) % 8]);
+            let a: Vec<Ci> = case.a.iter().map(mk).collect();
+            let b: Vec<Ci> = case.b.iter().map(mk).collect();
+            total::<Ci, N>(&a, &b)
+        }
     }
 }
 
@@ -329,14 +386,28 @@ fn exhaustive() -> Vec<Case> {
             }
         }
     }
+    // one-byte kinds: signed bytes around the sign boundary, bools, case-insensitive bytes
+    for n in 0..=3 {
+        let s = all(n, 4);
+        for a in &s {
+            for b in &s {
+                let i8v = |v: &Vec<i32>| v.iter().map(|x| [0, 127, 128, 255][*x as usize]).collect::<Vec<i32>>();
+                out.push(Case { ty: Ty::I8, a: i8v(a), b: i8v(b) });
+                out.push(Case { ty: Ty::Ci, a: a.clone(), b: b.clone() });
+                if a.iter().chain(b.iter()).all(|x| *x < 2) {
+                    out.push(Case { ty: Ty::Bool, a: a.clone(), b: b.clone() });
+                }
+            }
+        }
+    }
     out
 }
 
 fn random_strategy() -> impl Strategy<Value = Case> {
     let lat = harness::lens::LAT;
-    (0..lat.len(), 0usize..22, any::<u16>(), any::<u64>(), 0u8..4).prop_map(move |(li, t, ps, seed, mode)| {
+    (0..lat.len(), 0usize..28, any::<u16>(), any::<u64>(), 0u8..4).prop_map(move |(li, t, ps, seed, mode)| {
         let n = lat[li];
-        let ty = if t >= 20 { [Ty::NestedEmpty, Ty::Unit][t - 20] } else { [Ty::U8, Ty::I32, Ty::F64, Ty::Str, Ty::Nested][t % 5] };
+        let ty = if t >= 22 { [Ty::I8, Ty::Bool, Ty::Ci][(t - 22) % 3] } else if t >= 20 { [Ty::NestedEmpty, Ty::Unit][t - 20] } else { [Ty::U8, Ty::I32, Ty::F64, Ty::Str, Ty::Nested][t % 5] };
         let mut x = seed | 1;
         let mut r = move || {
             x ^= x << 13;
@@ -345,7 +416,9 @@ fn random_strategy() -> impl Strategy<Value = Case> {
             (x >> 33) as i32
         };
         let modulus = match ty {
-            Ty::U8 => 256,
+            Ty::U8 | Ty::I8 => 256,
+            Ty::Bool => 2,
+            Ty::Ci => 8,
             Ty::F64 => 9,
             Ty::Nested => 256,
             Ty::NestedEmpty | Ty::Unit => 1,
